@@ -215,8 +215,9 @@ class C11(Cfg):
             "unrelated elements); 4 lookups each with / without extended header; non-trivial = at least one frame loaded; "
             "distinct by request")
     observable = "canonical sorted metadata (keyed map and id map with every field) or none, and the lookup results"
-    explanation = ("C11_load (loader on rendered documents = Spec.model), C11_sorted (stable sort by sequence number), "
-                   "C11_first_pdu_wins, C11_unknown_signal_skipped, C11_unknown_pdu_fails, C11_files_irrelevant, C11_lookup; "
+    explanation = ("C11_load (loader on rendered documents = Spec.model, from the XML event list), C11_partition (any split into "
+                   "files), C11_order_independent / C11_order_fails, C11_sorted (stable sort by sequence number), C11_first_wins, "
+                   "C11_unknown_signal_skipped, C11_unknown_pdu_fails, C11_lookup; "
                    "the run loads real XML files with gather_fibex_data, feeds quick-xml's event dump of the same files to the "
                    "model, and evaluates Spec.model on the abstract documents")
     assumptions = COMMON_ASSUME + ["quick-xml 0.29 tokenizer / unescaping trusted: the model consumes its event dump "
@@ -239,8 +240,8 @@ class C12(Cfg):
             "('<' '>' '\"' '&' NUL 0xFF ...), insertions; missing path, empty file, no path, intact + damaged pairs; every load "
             "runs under a 10 s watchdog; non-trivial = file non-empty; distinct by request")
     observable = "returned(model | none) | HANG | PANIC; for returned models the canonical metadata"
-    explanation = ("C12_total (model or refusal, never panic, for all event lists), C12_consumes, C12_eof_in_pdu/frame, "
-                   "C12_keyMatches_total; termination of every loader loop is Lean's own termination check. Partial: "
+    explanation = ("C12_total (model or refusal, never panic, for all event lists), C12_readEvent_nopanic, C12_consumes, "
+                   "C12_eof_in_pdu/frame, C12_missing_file; termination of every loader loop is Lean's own termination check. Partial: "
                    "promptness, quick-xml on arbitrary bytes and library panics are observed under the watchdog, not proved")
     assumptions = C11.assumptions
 
@@ -325,7 +326,9 @@ class C15(Cfg):
             "every payload kind, optional fields, extended header present/absent), ADDSH <message> <time>, VALID "
             "<argument> (bool/float kinds with foreign values); non-trivial: all; distinct by request")
     observable = "(len, serialised lengths, valid) / built message and its consistency flags / bytes with storage header"
-    explanation = "C15_len, C15_new, C15_storage, C15_valid over the model; oracle evaluated on the crate's own results"
+    explanation = ("C15_len, C15_payload_len, C15_new, C15_new_lengths (any configuration that fits, also ill-typed "
+                   "arguments), C15_new_parses_back, C15_byte_len, C15_storage, C15_valid over the model; oracle evaluated on "
+                   "the crate's own results")
 
     def classify(self, req, ans, m=None):
         return req.split(" ", 1)[0] + ":" + ("PANIC" if "PANIC" in ans else "ok")
@@ -381,16 +384,19 @@ class C18(Cfg):
             "subnormals, NaN, +-inf, negatives, 2^k, offsets incl. negative/min/max, values around 2^53, 2^63, 2^64; "
             "non-trivial = a real value is produced; distinct by request")
     observable = "none | some <u64> | PANIC"
-    explanation = ("C18_sum / C18_none_unless / C18_trunc over the model; the IEEE product is an exact-integer executable "
-                   "model compared bit-for-bit with the hardware result through the crate on every case (partial: no "
-                   "theorem that F64.mul is IEEE multiplication)")
+    explanation = ("C18_exact: the model equals the value-level reference Spec/Fixed.lean (IEEE roundTiesToEven by "
+                   "definition, Spec.nearestDouble) on every input in the property's premise; the reference is also "
+                   "evaluated on the crate's own answers; the model's exact-integer product is compared bit-for-bit with "
+                   "the hardware result through the crate on every case (trusted: the hardware implements IEEE 754)")
     assumptions = ["the f64 product and the saturating cast are modelled with exact integer arithmetic (F64.mul, F64.toU64)"]
 
     def nontrivial(self, req, ans, m=None):
         return ans.startswith("some")
 
     def classify(self, req, ans, m=None):
-        return "REAL:" + ans.split(" ", 1)[0]
+        spec = (m or {}).get("spec", "")
+        what = "reference:exactly" if spec.startswith("some") else "reference:nothing" if spec == "none" else "reference:silent"
+        return "REAL:" + ans.split(" ", 1)[0] + ":" + what
 
     def corr_view(self, req, ans, spec=None):
         # where the property's premise does not hold (negative product, sum outside 0..2^63, 128-bit
@@ -416,7 +422,7 @@ class C19(Cfg):
             "distinct by request")
     observable = "(returned string bytes, remainder length) or (incomplete, hint)"
     exhaustive = True
-    explanation = ("C19_zts / C19_zts_short / C19_utf8 for all inputs; the run compares dlt_zero_terminated_string and the ids "
+    explanation = ("C19_zts / C19_zts_short / C19_utf8 / C19_spec (parser = Spec field) / C19_utf8_definition for all inputs; the run compares dlt_zero_terminated_string and the ids "
                    "returned by dlt_message with the model and with the Spec (RFC 3629 scalar decoding, longest valid prefix by search)")
 
     def nontrivial(self, req, ans, m=None):
@@ -453,7 +459,8 @@ class C06(Cfg):
             "the message is delivered or dropped), STREAM of 1..6 messages with junk between; "
             "non-trivial = pattern present / junk non-empty; distinct by request")
     observable = "(offset | none, remainder length) / (same parse as without junk?, class) / (messages recovered, all equal?)"
-    explanation = ("C06_search_some/none (first occurrence, exactly), C06_junk, C06_noD_junk, C06_no_border, C06_stream "
+    explanation = ("C06_search_some/none (first occurrence, exactly), C06_junk, C06_junk_any (every filter, every continuation), "
+                   "C06_noD_junk, C06_no_border, C06_stream "
                    "(parseAll recovers all messages in order); Spec oracle for the search = index-based first occurrence")
 
     def nontrivial(self, req, ans, m=None):
